@@ -1,5 +1,6 @@
 import ast
 import collections
+import copy
 import itertools
 import re
 from typing import Collection, Iterable, Sequence, Tuple
@@ -605,7 +606,8 @@ def overused_constant(source: str, *, root_is_static: bool) -> str:
         )
 
         name = ast.Name(id=variable_name)
-        assign = core.parse(f"{variable_name} = {code}").body[0]
+        # core.parse caches its result, so the positions must be set on a copy
+        assign = copy.deepcopy(core.parse(f"{variable_name} = {code}").body[0])
         assign.lineno = _get_constant_insertion_lineno(best_common_scope)
         assign.col_offset = best_common_scope.body[0].col_offset
         additions.add(assign)
